@@ -73,7 +73,7 @@ json.dump(errs, open(sys.argv[2], "w"))
 
 def _run_session(workdir, cfg, order, strategy="in memory", salt=0, fetch_all=True,
                 parse=True, cs=4, sizes=None, payload_fn=None, exit_flush=False,
-                close_after=None, reuse_buffer=False, fetch_positions=None):
+                close_after=None, reuse_buffer=False, fetch_positions=None, coord_type=None):
     # close_after: the accessor is closed after that many stores and the session goes on
     #   with the SAME object (the caller makes sure the rest goes to other shards);
     # reuse_buffer: every payload is handed over in ONE bytearray that the caller
@@ -97,7 +97,7 @@ def _run_session(workdir, cfg, order, strategy="in memory", salt=0, fetch_all=Tr
     tempfile.tempdir = workdir
     rec = {"cfg": {"grid": list(grid), "pb": cfg["pb"], "mb": cfg["mb"], "sb": cfg["sb"]},
            "enc": enc, "ienc": ienc, "strategy": strategy, "stores": [], "storeerr": [], "ids": [],
-           "files": [], "fetch": [], "framing": [], "closeerr": None}
+           "files": [], "fetch": [], "framing": [], "closeerr": None, "coord_type": coord_type}
     try:
         if exit_flush:
             # a writer PROCESS that stores and simply ends: the flush is the accessor's
@@ -137,7 +137,12 @@ def _run_session(workdir, cfg, order, strategy="in memory", salt=0, fetch_all=Tr
                     shared[:] = pay
                     arg = shared
                 try:
-                    acc.store_chunk(arg, KEY, coords_of(pos, cs, sizes))
+                    cc = coords_of(pos, cs, sizes)
+                    if coord_type:
+                        # coordinates computed with numpy (np.arange grids): numpy integer scalars
+                        import numpy as np
+                        cc = tuple(np.dtype(coord_type).type(v) for v in cc)
+                    acc.store_chunk(arg, KEY, cc)
                     rec["stores"].append({"pos": list(pos), "pay": list(pay)})
                 except Exception as e:  # recorded, judged by TLC
                     rec["storeerr"].append({"pos": list(pos), "cls": type(e).__name__})
